@@ -838,7 +838,9 @@ impl JobServerHandle {
             if got_token {
                 return Ok(());
             }
-            backoff *= 2;
+            // (capped: the sleep above never exceeds a second anyway, and an uncapped Duration overflows —
+            // and panics — after about 65 s of waiting)
+            backoff = cmp::min(backoff * 2, Duration::from_secs(1));
             {
                 let has_token = {
                     let state = self.state.borrow();
